@@ -352,6 +352,7 @@ class TokenizerState:
         self.alt_indents = [0]  # the same levels measured with a tab counted as one column
         self._can_close: tuple[int, dict[str, list[bool]]] = (0, {})
         self.last_line = ""
+        self.trailing_blanks = ""  # a last line that holds only indentation and no line end
         self.line = ""
         self.pos = 0
         self.max = 0
@@ -544,6 +545,8 @@ def next_statement(
 
     if state.pos == state.max:
         state.lnum += 1  # a last line of blanks without a line end: the end marker comes after it, not in front of it
+        if column:
+            state.trailing_blanks = state.line  # (an expression may not end like this, see Parser._parse)
         return False  # break parent loop
 
     if state.line[state.pos] in "#\n" or state.line[state.pos :] in ("\r\n", "\r"):  # skip comments or blank lines
@@ -694,7 +697,7 @@ def next_end_tokens(state: TokenizerState, pending: bool) -> Iterator[TokenInfo]
         )
     for _ in state.indents[1:]:  # pop remaining indent levels
         yield TokenInfo(Token.DEDENT, "", (state.lnum, 0), (state.lnum, 0), "")
-    yield TokenInfo(Token.ENDMARKER, "", (state.lnum, 0), (state.lnum, 0), "")
+    yield TokenInfo(Token.ENDMARKER, "", (state.lnum, 0), (state.lnum, 0), state.trailing_blanks)
 
 
 def handle_fstring_progs(state: TokenizerState, endprog: EndProg) -> Generator[TokenInfo, None, bool]:
